@@ -8,6 +8,7 @@ import html
 import html.entities
 import json
 import re
+import sqlite3
 import traceback
 import unicodedata
 from collections import deque
@@ -861,8 +862,25 @@ def add_empty_sandbox_lua_module(wtp: "Wtp") -> None:
     ns = wtp.NAMESPACE_DATA["Module"]
     ns_name = ns["name"]
     ns_id = ns["id"]
-    if not wtp.page_exists(f"{ns_name}:_sandbox_phase1", ns_id):
-        wtp.add_page(
-            f"{ns_name}:_sandbox_phase1", ns_id, body="", model="Scribunto"
-        )
-        wtp.db_conn.commit()
+    # Several worker processes may share the database, and this runs in the
+    # middle of their page work.  The row is added only when the title is
+    # free (get_page() cannot be asked: it turns "_" into " "), in a single
+    # statement, and over a short-lived connection of its own: the
+    # context's connection may have an unfinished SELECT (get_all_pages()),
+    # and SQLite refuses to turn such a read snapshot into a write
+    # transaction once another process has committed ("database is locked"
+    # at once, whatever the timeout).
+    wtp.db_conn.commit()  # as before: pending writes of this context first
+    assert wtp.db_path
+    conn = sqlite3.connect(wtp.db_path)
+    try:
+        with conn:
+            conn.execute(
+                """INSERT INTO pages (title, namespace_id, body,
+                redirect_to, need_pre_expand, model)
+                VALUES (?, ?, '', NULL, 0, 'Scribunto')
+                ON CONFLICT(title, namespace_id) DO NOTHING""",
+                (f"{ns_name}:_sandbox_phase1", ns_id),
+            )
+    finally:
+        conn.close()
